@@ -75,14 +75,14 @@ type resumeMsg struct{ abort bool }
 
 // G is a logical goroutine.
 type G struct {
-	id                        string
-	resume                    chan resumeMsg
-	op                        *op
-	spawnN, makeN, wgN        int
-	hist                      uint64
-	done                      bool
-	fn                        func()
-	blockedForever            bool
+	id                 string
+	resume             chan resumeMsg
+	op                 *op
+	spawnN, makeN, wgN int
+	hist               uint64
+	done               bool
+	fn                 func()
+	blockedForever     bool
 }
 
 // Chooser picks one of n enabled transitions.
@@ -105,12 +105,12 @@ type Sched struct {
 	events  chan event
 	chooser Chooser
 	// outcome
-	Panics   []string
-	Steps    int
-	Trace    []string
+	Panics    []string
+	Steps     int
+	Trace     []string
 	KeepTrace bool
-	OnState  func(key string) bool // return false to cut the execution here
-	maxSteps int
+	OnState   func(key string) bool // return false to cut the execution here
+	maxSteps  int
 }
 
 var cur *Sched
